@@ -1490,6 +1490,7 @@ func runC19(tier, replay string) int {
 		sweepOK = runC19Sweep(r, nil, "")
 		sweepMin = 60
 	}
+	r.Extra("added_in_seeding_round_6", "holder as process 1 of a pid namespace (c19_pidns.go): unshare -pf git-bug webui, three contenders through nsenter must be refused while the lock file keeps naming 1")
 	rc := r.Finish("process schedules on fresh repositories, list = f(seed, tier): contend (web UI holder ready, 0..2 contenders, SIGINT/SIGTERM/SIGKILL, 1..2 new openers), "+
 		"build (process parked at the cache.build hook with the lock taken, optional contender, signal, new openers), failing (1..3 failing commands each followed by a lock-file check, with and without identity), "+
 		"chain (successful commands incl. wipe, lock check after each), torn (empty lock file as left by a kill between create and write, then openers), toctou (two openers started together, delayed at cache.lock.window by 1.2 s and 4 s, so both pass the availability check before either creates the lock), zombie (informational), "+
